@@ -47,7 +47,7 @@ func drive() {
 	e := lib.Init("C11", "exploration")
 	d := &driver{e: e, rounds: map[string]int{}, raceAttr: map[string]int{}, raceOther: map[string]int{}, cellSamples: map[string]int{}}
 	e.Assume(
-		"handlers do not share script state on purpose (no captured outer variables, no static properties/locals, no properties of the shared middleware object): sharing those is by design",
+		"handlers do not share script state on purpose (no by-reference captures, no captured objects that are written, no static properties/locals, no properties of the shared middleware object): sharing those is by design; arrays and scalars captured BY VALUE (use ($x)) are per-call locals and are compared (shape s7)",
 		"superglobals are read in the frame of the handler / middleware itself; a read inside a nested function call finds no request (the interpreter locates it through slot 0 of the current frame) and is outside the compared domain",
 		"$request->attribute(key) cannot be read back from a script on this tree (the one-argument form fails its own parameter check), so request attributes are not observable and not compared",
 		"'alone' = the same request on a fresh VM + freshly registered server in the same worker process with nothing else in flight, served twice; a request whose two solitary answers differ is not compared",
